@@ -379,9 +379,40 @@ def build_module(prog: dict, seed: int = 0, cls=None) -> nn.Module:
     return m
 
 
+class _Star(nn.Module):
+    """adapter: one tuple argument -> the program's positional arguments"""
+
+    def __init__(self, inner):
+        super().__init__()
+        self.inner = inner
+
+    def forward(self, args):
+        return self.inner(*args)
+
+
+_NN_ROOT_PREFIX = "0.inner."
+
+
+def nn_root(m: nn.Module) -> nn.Module:
+    """the program module behind a root whose class is defined in torch.nn (nn.Sequential): the transforms must reach through it"""
+    root = nn.Sequential(_Star(m))
+    root._verif_source = "# root: nn.Sequential(_Star(prog)), called with one tuple of the arguments below\n" + m._verif_source
+    return root
+
+
+def call(mod: nn.Module, prog: dict, inputs: Dict[str, torch.Tensor], nnroot: bool = False):
+    """call a (possibly transformed) program module with a dict of inputs"""
+    if nnroot:
+        return mod(tuple(inputs[k] for k in forward_args(prog)))
+    return mod(**inputs)
+
+
 def named_tensors(module: nn.Module) -> Dict[str, torch.Tensor]:
     """parameters and buffers by name (what the reference interpreter reads)"""
-    return {**dict(module.named_parameters()), **dict(module.named_buffers())}
+    d = {**dict(module.named_parameters()), **dict(module.named_buffers())}
+    if d and all(k.startswith(_NN_ROOT_PREFIX) for k in d):
+        d = {k[len(_NN_ROOT_PREFIX):]: v for k, v in d.items()}
+    return d
 
 
 def make_inputs(prog: dict, seed: int, dtype=torch.float32) -> Dict[str, torch.Tensor]:
